@@ -73,7 +73,14 @@ func (c *Ctx) calleeEnv(cc *ssa.CallCommon, g *ssa.Function, env Env) Env {
 func (c *Ctx) calleeEnvV(cc *ssa.CallCommon, g *ssa.Function, env Env, callVal ssa.Value) Env {
 	ne := Env{}
 	if callVal != nil && g.Blocks != nil {
-		base := c.Path(callVal, env)
+		c.nameResults(ne, g, c.Path(callVal, env))
+	}
+	return c.calleeEnvRest(ne, cc, g, env, callVal)
+}
+
+// nameResults names what g hands back on its successful exits after the caller-side call value (base).
+func (c *Ctx) nameResults(ne Env, g *ssa.Function, base string) {
+	{
 		for _, r := range returnsOf(g) {
 			if !maySucceed(r) {
 				continue
@@ -111,6 +118,9 @@ func (c *Ctx) calleeEnvV(cc *ssa.CallCommon, g *ssa.Function, env Env, callVal s
 			}
 		}
 	}
+}
+
+func (c *Ctx) calleeEnvRest(ne Env, cc *ssa.CallCommon, g *ssa.Function, env Env, callVal ssa.Value) Env {
 	args := cc.Args
 	if cc.IsInvoke() {
 		args = append([]ssa.Value{cc.Value}, cc.Args...)
@@ -118,6 +128,10 @@ func (c *Ctx) calleeEnvV(cc *ssa.CallCommon, g *ssa.Function, env Env, callVal s
 	for i, a := range args {
 		if i < len(g.Params) {
 			ne[g.Params[i]] = c.Path(a, env)
+			// a struct literal handed over by value: its fields read as what the caller put into them
+			if tok := c.structLitArg(a, env); tok != "" {
+				ne[g.Params[i]] = tok
+			}
 			// a function handed to the callee: remembered with the frame it was made in
 			if _, isSig := a.Type().Underlying().(*types.Signature); isSig {
 				switch fv := stripConv(a).(type) {
@@ -143,10 +157,24 @@ func (c *Ctx) calleeEnvV(cc *ssa.CallCommon, g *ssa.Function, env Env, callVal s
 			}
 		}
 	}
-	if mc, ok := cc.Value.(*ssa.MakeClosure); ok {
+	mc, ok := cc.Value.(*ssa.MakeClosure)
+	if !ok {
+		// a function literal kept in the table element under consideration
+		mc, ok = c.mcSubst[cc.Value]
+		if ok && mc.Fn != ssa.Value(g) {
+			ok = false
+		}
+	}
+	if ok {
 		for i, b := range mc.Bindings {
 			if i < len(g.FreeVars) {
 				ne[g.FreeVars[i]] = c.Path(b, env)
+				// a captured variable lives in a cell: the closure reads it through the cell
+				if al, isAl := b.(*ssa.Alloc); isAl {
+					if st := singleStore(al); st != nil {
+						ne[g.FreeVars[i]] = c.Path(st.Val, env)
+					}
+				}
 			}
 		}
 	}
@@ -264,6 +292,30 @@ func (c *Ctx) sites(f *ssa.Function, env Env, chk *GCheck, depth int) []gsite {
 		}
 		return out
 	}
+	// a boolean read from the table element under consideration that carries the result of a test made when the table
+	// was built (`{info.DidSuffix == "", "missing …"}`): the branch on it is a branch on that test
+	for rv, o := range c.valSubst {
+		ri, isI := rv.(ssa.Instruction)
+		if !isI || ri.Parent() != f {
+			continue
+		}
+		switch ov := o.(type) {
+		case *ssa.BinOp:
+			if chk.MatchCmp != nil {
+				if m, onTrue := chk.MatchCmp(c, ov, env); m {
+					out = append(out, gsite{cut: boolEdgesT(rv, onTrue), instr: ri})
+				}
+			}
+		case *ssa.Lookup:
+			if chk.MatchOK != nil && chk.MatchOK(c, ov, env) {
+				out = append(out, gsite{cut: boolEdgesT(rv, !chk.BoolFalse), instr: ri})
+			}
+		case *ssa.TypeAssert:
+			if chk.MatchOK != nil && chk.MatchOK(c, ov, env) {
+				out = append(out, gsite{cut: boolEdgesT(rv, !chk.BoolFalse), instr: ri})
+			}
+		}
+	}
 	// boolean parameters that carry the result of a test made by the caller
 	for _, p := range f.Params {
 		if !isBoolType(p.Type()) || len(env) == 0 {
@@ -303,6 +355,9 @@ func (c *Ctx) sites(f *ssa.Function, env Env, chk *GCheck, depth int) []gsite {
 					// (with the variables it captured rendered in the frame it was made in)
 					if fn, fenv, ok := c.dynCallee(x, env); ok {
 						cs = []*ssa.Function{fn}
+						if c.nameHandedOn {
+							c.nameResults(fenv, fn, c.Path(x, env))
+						}
 						envOf = func(*ssa.Function) Env { return fenv }
 					}
 					if len(cs) > 0 {
@@ -345,7 +400,7 @@ func (c *Ctx) sites(f *ssa.Function, env Env, chk *GCheck, depth int) []gsite {
 					if okv := extractOf(x, 1); okv != nil {
 						out = append(out, gsite{cut: boolEdgesT(okv, boolWant), instr: x})
 					}
-				} else if x.Call.Signature().Results().Len() == 0 && chk.MatchCall != nil && chk.MatchCall(c, x, env) {
+				} else if cannotFail(x.Call.Signature()) && chk.MatchCall != nil && chk.MatchCall(c, x, env) {
 					// a step that cannot fail (no result): having run it is the success — every way out of its block
 					var es []edge
 					for _, sc := range x.Block().Succs {
@@ -464,6 +519,9 @@ func (c *Ctx) guard(f *ssa.Function, env Env, chk *GCheck, events func(in ssa.In
 	c.Analysed(f)
 	ss := c.sites(f, env, chk, depth)
 	cut := c.pruned(f, env)
+	for _, e := range phiNilInfeasible(f) {
+		cut[e] = true
+	}
 	if depth == 0 {
 		for e := range c.extraCut {
 			cut[e] = true
@@ -484,11 +542,12 @@ func (c *Ctx) guard(f *ssa.Function, env Env, chk *GCheck, events func(in ssa.In
 	// steps that cannot fail: what follows them in their own block lies behind them
 	passed := map[ssa.Instruction]bool{}
 	for _, s := range ss {
-		if cl, isC := s.instr.(*ssa.Call); isC && cl.Call.Signature().Results().Len() == 0 {
+		if cl, isC := s.instr.(*ssa.Call); isC && cannotFail(cl.Call.Signature()) {
 			passed[cl] = true
 		}
 	}
 	seen := reach(f.Blocks[0], cut)
+	deepSites := 0
 	for _, b := range f.Blocks {
 		if _, ok := seen[b]; !ok {
 			continue
@@ -498,12 +557,35 @@ func (c *Ctx) guard(f *ssa.Function, env Env, chk *GCheck, events func(in ssa.In
 				break
 			}
 			isEv := false
+			// events that lie in an unexported helper of the package called from here (a tail of the function moved into
+			// a helper of its own): the helper guards them itself, or this call is the event
+			if events != nil && depth < 2 {
+				if cl, isC := in.(*ssa.Call); isC {
+					if h := cl.Call.StaticCallee(); h != nil && h != f && inModule(h) && h.Blocks != nil && pkgPathOf(h) == pkgPathOf(f) && (h.Object() == nil || !h.Object().Exported()) && hasEventIn(h, events, 0) {
+						henv := c.calleeEnvV(&cl.Call, h, env, cl)
+						okh, wh, nh := c.guard(h, henv, chk, events, depth+1)
+						deepSites += nh
+						if !okh {
+							w := append([]string{fmt.Sprintf("in %s: the call %s at %s is reachable from entry without crossing a success edge of [%s], and inside the callee:", short(f.String()), short(h.String()), c.pos(cl.Pos()), chk.Name)}, wh...)
+							return false, w, len(ss) + deepSites
+						}
+					}
+				}
+			}
 			if events != nil {
 				isEv = events(in)
 			} else if ret, ok := in.(*ssa.Return); ok {
 				isEv = maySucceed(ret)
 				if isEv && len(ret.Results) > 0 && okVals[ret.Results[len(ret.Results)-1]] {
 					isEv = false
+				}
+				// the verdict handed back is "the checked step reported no error" (`return v, err == nil`)
+				if isEv && len(ret.Results) > 0 {
+					if bo, isB := ret.Results[len(ret.Results)-1].(*ssa.BinOp); isB && bo.Op == token.EQL {
+						if (okVals[bo.X] && isNilConst(bo.Y)) || (okVals[bo.Y] && isNilConst(bo.X)) {
+							isEv = false
+						}
+					}
 				}
 				// a boolean verdict assembled by short-circuit evaluation (`return ok && x != ""`): the exit accepts only when
 				// it is entered along an edge that carries something other than false, from a predecessor reachable
@@ -549,11 +631,11 @@ func (c *Ctx) guard(f *ssa.Function, env Env, chk *GCheck, events func(in ssa.In
 			if isEv {
 				w := c.witnessPath(seen, b)
 				w = append([]string{fmt.Sprintf("in %s: %s at %s is reachable from entry without crossing a success edge of [%s] (%d check site(s) found)", short(f.String()), in.String(), c.pos(instrPos(in)), chk.Name, len(ss))}, w...)
-				return false, w, len(ss)
+				return false, w, len(ss) + deepSites
 			}
 		}
 	}
-	return true, nil, len(ss)
+	return true, nil, len(ss) + deepSites
 }
 
 // ensures: every success exit of f lies behind a success edge of chk (memoised; cycles => false).
@@ -580,6 +662,10 @@ func (c *Ctx) ensures(f *ssa.Function, env Env, chk *GCheck, depth int) (bool, [
 		return false, []string{"the function has no accepting exit"}
 	}
 	ok, w, _ := c.guard(f, env, chk, nil, depth)
+	// (a list of steps run by one loop: one of the listed steps ensures the check, and the loop cannot be bypassed)
+	if !ok && len(naturalLoops(f)) > 0 && c.guardViaTable(f, env, chk) {
+		ok, w = true, nil
+	}
 	if ok {
 		c.gmemo[key] = 1
 	}
@@ -922,6 +1008,32 @@ func cmpReject(name string, rejectOp token.Token, lhs, rhs func(string) bool) *G
 	}}
 }
 
+// cmpRejectConst is cmpReject(name, ==, lhs, the constant K), which also knows that a value found equal to some other
+// constant is not K (`switch { case kty == "RSA": … case kty == "": refuse }`: the RSA arm lies behind kty != "").
+func cmpRejectConst(name string, lhs func(string) bool, K string) *GCheck {
+	chk := cmpReject(name, token.EQL, lhs, pathIs(K))
+	inner := chk.MatchCmp
+	isConstLit := func(p string) bool {
+		return p != K && p != "" && (p[0] == '"' || (p[0] >= '0' && p[0] <= '9') || p[0] == '-')
+	}
+	chk.MatchCmp = func(c *Ctx, b *ssa.BinOp, env Env) (bool, bool) {
+		if m, onTrue := inner(c, b, env); m {
+			return m, onTrue
+		}
+		if b.Op != token.EQL && b.Op != token.NEQ {
+			return false, false
+		}
+		_, kx := b.X.(*ssa.Const)
+		_, ky := b.Y.(*ssa.Const)
+		l, r := c.Path(b.X, env), c.Path(b.Y, env)
+		if (ky && lhs(l) && isConstLit(r)) || (kx && lhs(r) && isConstLit(l)) {
+			return true, b.Op == token.EQL
+		}
+		return false, false
+	}
+	return chk
+}
+
 func flipOp(op token.Token) token.Token {
 	switch op {
 	case token.LSS:
@@ -1207,7 +1319,9 @@ type tableEnv struct {
 	cut   map[edge]bool
 	group ssa.Value
 	alt   int
-	fns   map[ssa.Value]*ssa.Function // element fields holding functions: the load -> the function stored for this element
+	fns   map[ssa.Value]*ssa.Function    // element fields holding functions: the load -> the function stored for this element
+	mcs   map[ssa.Value]*ssa.MakeClosure // … and, for function literals, the closure (its captured variables are the frame's)
+	vals  map[ssa.Value]ssa.Value        // element fields holding the result of a test made when the table was built
 }
 
 // globalSliceInit: the slice literal a package-level variable is initialised with, when that is its only write.
@@ -1258,6 +1372,7 @@ func (c *Ctx) tableLoopEnvsAlt(f *ssa.Function, env Env) []tableEnv {
 	// built by the package initialiser; the global must be written nowhere else)
 	type cand struct {
 		sl    *ssa.Slice
+		arr   *ssa.UnOp   // array form: the load of the whole local array
 		loads []ssa.Value // global form: the loads of the global in f
 	}
 	var cands []cand
@@ -1265,6 +1380,14 @@ func (c *Ctx) tableLoopEnvsAlt(f *ssa.Function, env Env) []tableEnv {
 		for _, in := range b.Instrs {
 			if sl, ok := in.(*ssa.Slice); ok {
 				cands = append(cands, cand{sl: sl})
+			}
+			// an array literal ranged over by value: the loop reads a copy of the whole array
+			if ld, ok := in.(*ssa.UnOp); ok && ld.Op == token.MUL {
+				if al, isAl := ld.X.(*ssa.Alloc); isAl {
+					if _, isArr := derefT(al.Type()).Underlying().(*types.Array); isArr {
+						cands = append(cands, cand{arr: ld})
+					}
+				}
 			}
 			if ld, ok := in.(*ssa.UnOp); ok && ld.Op == token.MUL {
 				if g, isG := ld.X.(*ssa.Global); isG {
@@ -1287,7 +1410,13 @@ func (c *Ctx) tableLoopEnvsAlt(f *ssa.Function, env Env) []tableEnv {
 	{
 		for _, cd := range cands {
 			sl := cd.sl
-			al, ok := sl.X.(*ssa.Alloc)
+			var al *ssa.Alloc
+			var ok bool
+			if cd.arr != nil {
+				al, ok = cd.arr.X.(*ssa.Alloc)
+			} else {
+				al, ok = sl.X.(*ssa.Alloc)
+			}
 			if !ok {
 				continue
 			}
@@ -1319,6 +1448,25 @@ func (c *Ctx) tableLoopEnvsAlt(f *ssa.Function, env Env) []tableEnv {
 					case *ssa.Store:
 						if y.Addr == ssa.Value(ia) {
 							stores[k][-1] = y.Val
+							// a struct element built in a cell of its own and copied in whole: its fields
+							if ld, isLd := y.Val.(*ssa.UnOp); isLd && ld.Op == token.MUL {
+								if cell, isCell := ld.X.(*ssa.Alloc); isCell && cell.Referrers() != nil {
+									written := map[int]int{}
+									for _, cr := range *cell.Referrers() {
+										if fa, isFA := cr.(*ssa.FieldAddr); isFA {
+											written[fa.Field]++
+											if st := singleStoreTo(fa); st != nil && instrDominates(st, ld) {
+												stores[k][fa.Field] = st.Val
+											}
+										}
+									}
+									for fld, n := range written {
+										if n > 1 {
+											delete(stores[k], fld)
+										}
+									}
+								}
+							}
 						}
 					case *ssa.FieldAddr:
 						for _, r3 := range *y.Referrers() {
@@ -1345,6 +1493,9 @@ func (c *Ctx) tableLoopEnvsAlt(f *ssa.Function, env Env) []tableEnv {
 				alt int
 			}
 			rs := []ranged{{v: sl}}
+			if cd.arr != nil {
+				rs = []ranged{{v: cd.arr}}
+			}
 			if len(cd.loads) > 0 {
 				rs = nil
 				for _, ld := range cd.loads {
@@ -1353,6 +1504,9 @@ func (c *Ctx) tableLoopEnvsAlt(f *ssa.Function, env Env) []tableEnv {
 			}
 			// (a φ that selects this table among several: the local slice, or a load of the package-level one)
 			srcs := []ssa.Value{sl}
+			if cd.arr != nil {
+				srcs = []ssa.Value{cd.arr}
+			}
 			if len(cd.loads) > 0 {
 				srcs = cd.loads
 			}
@@ -1381,7 +1535,40 @@ func (c *Ctx) tableLoopEnvsAlt(f *ssa.Function, env Env) []tableEnv {
 			}
 			for _, rg := range rs {
 				reads = nil
+				elemValue := func(y ssa.Value) {
+					if _, isStruct := y.Type().Underlying().(*types.Struct); !isStruct {
+						reads = append(reads, read{y, -1})
+						return
+					}
+					if y.Referrers() == nil {
+						return
+					}
+					for _, r3 := range *y.Referrers() {
+						switch z := r3.(type) {
+						case *ssa.Field:
+							reads = append(reads, read{z, z.Field})
+						case *ssa.Store:
+							la, isLA := z.Addr.(*ssa.Alloc)
+							if !isLA || z.Val != y {
+								continue
+							}
+							for _, r4 := range *la.Referrers() {
+								if fa, isFA := r4.(*ssa.FieldAddr); isFA {
+									for _, r5 := range *fa.Referrers() {
+										if ld, isLd := r5.(*ssa.UnOp); isLd && ld.Op == token.MUL {
+											reads = append(reads, read{ld, fa.Field})
+										}
+									}
+								}
+							}
+						}
+					}
+				}
 				for _, r := range *rg.v.Referrers() {
+					if ix, isIx := r.(*ssa.Index); isIx && c.Path(ix.Index, nil) == "ι" {
+						elemValue(ix)
+						continue
+					}
 					ia, isIA := r.(*ssa.IndexAddr)
 					if !isIA || c.Path(ia.Index, nil) != "ι" {
 						continue
@@ -1436,6 +1623,8 @@ func (c *Ctx) tableLoopEnvsAlt(f *ssa.Function, env Env) []tableEnv {
 					}
 					okAll := true
 					var fns map[ssa.Value]*ssa.Function
+					var mcs map[ssa.Value]*ssa.MakeClosure
+					var vals map[ssa.Value]ssa.Value
 					for _, rd := range reads {
 						sv, has := stores[k][rd.fld]
 						if !has {
@@ -1443,17 +1632,31 @@ func (c *Ctx) tableLoopEnvsAlt(f *ssa.Function, env Env) []tableEnv {
 							break
 						}
 						e[rd.v] = c.Path(sv, env)
+						if isBoolType(sv.Type()) {
+							if o := boolOriginOf(sv); o != nil {
+								if vals == nil {
+									vals = map[ssa.Value]ssa.Value{}
+								}
+								vals[rd.v] = o
+							}
+						}
 						if _, isSig := sv.Type().Underlying().(*types.Signature); isSig {
 							if fn := funcValueOf(sv); fn != nil {
 								if fns == nil {
 									fns = map[ssa.Value]*ssa.Function{}
 								}
 								fns[rd.v] = fn
+								if mc, isMC := stripConv(sv).(*ssa.MakeClosure); isMC {
+									if mcs == nil {
+										mcs = map[ssa.Value]*ssa.MakeClosure{}
+									}
+									mcs[rd.v] = mc
+								}
 							}
 						}
 					}
 					if okAll {
-						out = append(out, tableEnv{env: e, cut: rg.cut, group: rg.v, alt: rg.alt, fns: fns})
+						out = append(out, tableEnv{env: e, cut: rg.cut, group: rg.v, alt: rg.alt, fns: fns, mcs: mcs, vals: vals})
 					}
 				}
 			}
@@ -1485,8 +1688,9 @@ func loopBypassed(f *ssa.Function, l *loop) bool {
 func (c *Ctx) guardViaTable(f *ssa.Function, env Env, chk *GCheck) bool {
 	tes := c.tableLoopEnvsAlt(f, env)
 	holds := func(te tableEnv) bool {
-		c.extraCut, c.fnSubst = te.cut, te.fns
-		defer func() { c.extraCut, c.fnSubst = nil, nil }()
+		oc, of, om, ov := c.extraCut, c.fnSubst, c.mcSubst, c.valSubst
+		c.extraCut, c.fnSubst, c.mcSubst, c.valSubst = te.cut, te.fns, te.mcs, te.vals
+		defer func() { c.extraCut, c.fnSubst, c.mcSubst, c.valSubst = oc, of, om, ov }()
 		ok, _, n := c.GuardLoop(f, te.env, chk)
 		if !ok || n == 0 {
 			return false
@@ -1581,7 +1785,90 @@ func trueOnlySet(m ssa.Value) bool {
 		}
 		return true
 	}
+	// a set kept in a captured variable: every view of the cell — what is stored into it, and its loads in the function
+	// that declares it and in the function literals that capture it
+	if views := cellViews(base); len(views) > 0 {
+		for _, v := range views {
+			if !scan(v, 0) {
+				return false
+			}
+		}
+		return n > 0
+	}
 	return scan(base, 0) && n > 0
+}
+
+// cellViews: v is a load of a local variable's cell (directly, or through a captured variable of a function literal);
+// returns the values stored into the cell and all its loads, in the declaring function and in the literals capturing it
+// (nil when the cell's address goes anywhere else).
+func cellViews(v ssa.Value) []ssa.Value {
+	ld, ok := v.(*ssa.UnOp)
+	if !ok || ld.Op != token.MUL {
+		return nil
+	}
+	var cell *ssa.Alloc
+	switch x := ld.X.(type) {
+	case *ssa.Alloc:
+		cell = x
+	case *ssa.FreeVar:
+		lit := x.Parent()
+		if lit == nil || lit.Parent() == nil {
+			return nil
+		}
+		idx := -1
+		for i, fv := range lit.FreeVars {
+			if fv == x {
+				idx = i
+			}
+		}
+		forEachInstr(lit.Parent(), func(in ssa.Instruction) {
+			if mc, isMC := in.(*ssa.MakeClosure); isMC && mc.Fn == ssa.Value(lit) && idx >= 0 && idx < len(mc.Bindings) {
+				if al, isAl := mc.Bindings[idx].(*ssa.Alloc); isAl {
+					cell = al
+				}
+			}
+		})
+	}
+	if cell == nil || cell.Referrers() == nil {
+		return nil
+	}
+	var out []ssa.Value
+	okAll := true
+	var visitAddr func(addr ssa.Value, d int)
+	visitAddr = func(addr ssa.Value, d int) {
+		if addr.Referrers() == nil || d > 2 {
+			return
+		}
+		for _, r := range *addr.Referrers() {
+			switch y := r.(type) {
+			case *ssa.Store:
+				if y.Addr == addr {
+					out = append(out, y.Val)
+				} else {
+					okAll = false
+				}
+			case *ssa.UnOp:
+				if y.Op == token.MUL {
+					out = append(out, y)
+				}
+			case *ssa.MakeClosure:
+				fn, _ := y.Fn.(*ssa.Function)
+				for i, b := range y.Bindings {
+					if b == addr && fn != nil && i < len(fn.FreeVars) {
+						visitAddr(fn.FreeVars[i], d+1)
+					}
+				}
+			case *ssa.DebugRef:
+			default:
+				okAll = false
+			}
+		}
+	}
+	visitAddr(cell, 0)
+	if !okAll {
+		return nil
+	}
+	return out
 }
 
 func c19constBool(k *ssa.Const) string {
@@ -1592,4 +1879,139 @@ func c19constBool(k *ssa.Const) string {
 		return "true"
 	}
 	return "false"
+}
+
+// structLitArg: a is a struct value loaded from a cell that the caller filled field by field (a composite literal, each
+// field stored once, before the load; the cell's address goes nowhere else). Registers the field paths under a token
+// that stands for the value in the callee's frame.
+func (c *Ctx) structLitArg(a ssa.Value, env Env) string {
+	// … or the struct an unexported one-exit helper builds field by field and hands back (`p, ok := parse(op)`)
+	{
+		var cl *ssa.Call
+		idx := 0
+		switch x := a.(type) {
+		case *ssa.Extract:
+			cl, _ = x.Tuple.(*ssa.Call)
+			idx = x.Index
+		case *ssa.Call:
+			cl = x
+		}
+		if cl != nil {
+			if g := cl.Call.StaticCallee(); g != nil && inModule(g) && g.Blocks != nil && g.Object() != nil && !g.Object().Exported() {
+				if _, isStruct := a.Type().Underlying().(*types.Struct); isStruct {
+					var srs []*ssa.Return
+					for _, r := range successReturns(g) {
+						// (value, ok) helpers: the "not there" exit hands back nothing of interest
+						if n := len(r.Results); n > 1 && isBoolType(r.Results[n-1].Type()) && c.Path(r.Results[n-1], nil) == "false" {
+							continue
+						}
+						srs = append(srs, r)
+					}
+					if len(srs) == 1 && idx < len(srs[0].Results) {
+						if tok := c.structLitArg(returnedValue(srs[0], idx), c.calleeEnv(&cl.Call, g, env)); tok != "" {
+							return tok
+						}
+					}
+				}
+			}
+			return ""
+		}
+	}
+	ld, ok := a.(*ssa.UnOp)
+	if !ok || ld.Op != token.MUL {
+		return ""
+	}
+	cell, ok := ld.X.(*ssa.Alloc)
+	if !ok || cell.Referrers() == nil {
+		return ""
+	}
+	st, ok := derefT(cell.Type()).Underlying().(*types.Struct)
+	if !ok {
+		return ""
+	}
+	// a local that holds, as a whole, the struct a helper handed back
+	if w := wholeStore(cell); w != nil && instrDominates(w, ld) {
+		return c.structLitArg(w.Val, env)
+	}
+	fields := map[string]string{}
+	for _, r := range *cell.Referrers() {
+		switch x := r.(type) {
+		case *ssa.FieldAddr:
+			w := singleStoreTo(x)
+			if w == nil {
+				// a read of the field
+				if x.Referrers() != nil {
+					for _, rr := range *x.Referrers() {
+						if u, isU := rr.(*ssa.UnOp); !isU || u.Op != token.MUL {
+							if _, isD := rr.(*ssa.DebugRef); !isD {
+								return ""
+							}
+						}
+					}
+				}
+				continue
+			}
+			if !instrDominates(w, ld) {
+				return ""
+			}
+			name := st.Field(x.Field).Name()
+			if _, dup := fields[name]; dup {
+				return ""
+			}
+			fields[name] = c.Path(w.Val, env)
+		case *ssa.UnOp:
+			if x.Op != token.MUL {
+				return ""
+			}
+		case *ssa.DebugRef:
+		default:
+			return ""
+		}
+	}
+	if len(fields) == 0 {
+		return ""
+	}
+	tok := fmt.Sprintf("lit<%s>@%p", typeShort(derefT(cell.Type())), cell)
+	if c.structLits == nil {
+		c.structLits = map[string]map[string]string{}
+	}
+	c.structLits[tok] = fields
+	return tok
+}
+
+// cannotFail: the call has no way of reporting failure — no result at all, or results none of which is an error or a
+// trailing boolean verdict.
+func cannotFail(sig *types.Signature) bool {
+	rs := sig.Results()
+	if rs.Len() == 0 {
+		return true
+	}
+	for i := 0; i < rs.Len(); i++ {
+		if isErrType(rs.At(i).Type()) {
+			return false
+		}
+	}
+	return !isBoolType(rs.At(rs.Len() - 1).Type())
+}
+
+// hasEventIn: some instruction of h (or of the unexported helpers of its package it calls, two levels down) is an event.
+func hasEventIn(h *ssa.Function, events func(in ssa.Instruction) bool, d int) bool {
+	found := false
+	forEachInstr(h, func(in ssa.Instruction) {
+		if found {
+			return
+		}
+		if events(in) {
+			found = true
+			return
+		}
+		if cl, ok := in.(*ssa.Call); ok && d < 2 {
+			if g := cl.Call.StaticCallee(); g != nil && g != h && inModule(g) && g.Blocks != nil && pkgPathOf(g) == pkgPathOf(h) && (g.Object() == nil || !g.Object().Exported()) {
+				if hasEventIn(g, events, d+1) {
+					found = true
+				}
+			}
+		}
+	})
+	return found
 }
